@@ -49,7 +49,14 @@ F9 == {<<9, n, ElapsedAt, o, k, g, t>> : n \in 0..1, o \in Ops, k \in 1..2,
                                            g \in {ElapsedAt - Half, ElapsedAt, ElapsedAt + Half, 0}, t \in {0, Half, -Half}}
 F10 == {<<10, n, RecurredAt, o, k, g, t>> : n \in 0..1, o \in Ops, k \in 1..2,
                                              g \in {RecurredAt - 1, RecurredAt, RecurredAt + 1, 0}, t \in {0, 1, -1}}
-Codes == F1 \cup F2 \cup F3 \cup F4 \cup F5 \cup F6 \cup F7 \cup F8 \cup F9 \cup F10
+\* 11..14: the same number comparisons on operands of LARGE magnitude: state and goal shifted alike by +-10^6 and
+\* +-10^9 (in halves: 2*10^6, 2*10^9; still 32-bit integers and exact as floats), the tolerance unchanged.  The
+\* written comparison goal-|tol| <= state <= goal+|tol| is translation invariant, so the truth values are those of
+\* the unshifted rows (lemma TranslationInvariant) - whatever the magnitude of the operands.
+Offset(fam) == CASE fam = 11 -> 2000000 [] fam = 12 -> -2000000 [] fam = 13 -> 2000000000 [] fam = 14 -> -2000000000
+BigFams == 11..14
+FBig == {<<f, n, s, o, k, g, t>> : f \in BigFams, n \in 0..1, s \in (-3)..3, o \in Ops, k \in 1..2, g \in 0..1, t \in {0, 1, 2, -1}}
+Codes == FBig \cup F1 \cup F2 \cup F3 \cup F4 \cup F5 \cup F6 \cup F7 \cup F8 \cup F9 \cup F10
 
 Decode(c) ==
     LET fam == c[1]  neg == c[2] = 1  s == c[3]  g == c[6]
@@ -64,6 +71,7 @@ Decode(c) ==
       [] fam = 8 -> Tr(neg, Boo(s = 1))
       [] fam = 9 -> Cl(neg, "elapsed", Num(s), op, gk, Num(g), t)
       [] fam = 10 -> Cl(neg, "recurred", Num(s), op, gk, Num(g), t)
+      [] fam \in BigFams -> Cl(neg, "share", Num(Offset(fam) + s), op, gk, Num(Offset(fam) + g), t)
 
 ClauseRaw(c) == IF c.k = "truthy" THEN Truthy(c.state) ELSE Check(c.state, c.op, c.goal, c.tol)
 ClauseTruth(c) == Negated(c.neg, ClauseRaw(c))
@@ -81,7 +89,8 @@ Pool == << Cl(FALSE, "share", Num(1), "==", "lit", Num(2), 1),        \* 0.5 == 
            Cl(FALSE, "share", Boo(FALSE), "==", "share", Boo(TRUE), 0),   \* false
            Tr(FALSE, Num(-1)), Tr(FALSE, Num(0)), Tr(TRUE, Str("")), Tr(TRUE, Boo(TRUE)),
            Cl(FALSE, "elapsed", Num(ElapsedAt), "==", "lit", Num(ElapsedAt + Half), Half),   \* true
-           Cl(FALSE, "recurred", Num(RecurredAt), "<", "lit", Num(RecurredAt), 1) >>          \* false
+           Cl(FALSE, "recurred", Num(RecurredAt), "<", "lit", Num(RecurredAt), 1),            \* false
+           Cl(FALSE, "share", Num(2000000002), "==", "lit", Num(2000000000), 1) >>            \* 10^9+1 == 10^9 +- 0.5   false
 NP == Len(Pool)
 PairSet == {<<a, b>> : a \in 1..NP, b \in 1..NP}
 TripleSet == {<<a, b, c>> : a \in 1..NP, b \in 1..NP, c \in 1..NP}
@@ -121,11 +130,16 @@ BandClosed == \A g \in Nums, t \in Tols :
     /\ ~Check(Num(g + NAbs(t) + 1), "==", Num(g), t) /\ ~Check(Num(g - NAbs(t) - 1), "==", Num(g), t)
 \* rows of every length occur with both truth values (vacuity)
 BothValues == \A b \in BOOLEAN :
-    /\ \A fam \in 1..10 : \E x \in Codes : x[1] = fam /\ ClauseTruth(Decode(x)) = b
+    /\ \A fam \in 1..14 : \E x \in Codes : x[1] = fam /\ ClauseTruth(Decode(x)) = b
     /\ \E ix \in PairSet : RowTruth(PoolRow(ix)) = b
     /\ \E ix \in TripleSet : RowTruth(PoolRow(ix)) = b
 
+\* shifting state and goal alike changes nothing, for every operator and tolerance
+TranslationInvariant == \A x \in FBig : LET c == Decode(x) IN
+    Check(c.state, c.op, c.goal, c.tol) = Check(Num(x[3]), c.op, Num(x[6]), c.tol)
+
 ASSUME NeComplement
+ASSUME TranslationInvariant
 ASSUME OrderTotal
 ASSUME TolAbs
 ASSUME TolOnlyEq
